@@ -1,12 +1,11 @@
 #!/bin/bash
-# mut.sh <prop> <file-relative-to-/repo> <sed-expr> : apply a one-line mutation to /repo, run the quick check, revert.
+# mut.sh <prop> <file-relative-to-the-repo> <sed-expr> : apply a one-line mutation to a scratch copy of /repo,
+# run the quick check against that copy, print what it reported.  /repo itself is not touched.
 prop="$1"; file="$2"; expr="$3"
-cd /repo || exit 2
-[ -z "$(git status --porcelain --untracked-files=no)" ] || { echo "repo dirty"; exit 2; }
-sed -i "$expr" "$file"
-if git diff --quiet; then echo "MUTATION DID NOT APPLY"; exit 2; fi
-git diff | grep '^[-+]' | grep -v '^+++\|^---'
-cd /verif && ./vcheck "$prop" quick 2>&1 | grep -E "VIOLATION|KNOWN-FINDING|class:|MACHINERY|tier:" | head -${MUT_LINES:-8}
+alt="$(/verif/tools/altrepo.sh)"
+sed -i "$expr" "$alt/$file"
+if git -C "$alt" diff --quiet; then echo "MUTATION DID NOT APPLY"; exit 2; fi
+git -C "$alt" diff | grep '^[-+]' | grep -v '^+++\|^---'
+cd /verif && VERIF_REPO="$alt" ./vcheck "$prop" quick 2>&1 | grep -aE "VIOLATION|KNOWN-FINDING|class:|MACHINERY|tier:" | head -${MUT_LINES:-8}
 echo "exit=${PIPESTATUS[0]}"
-cd /repo && git checkout -- .
-git -C /verif checkout -q -- evidence 2>/dev/null  # evidence written by runs against a changed tree is not evidence
+/verif/tools/altrepo.sh >/dev/null
